@@ -45,6 +45,17 @@ def generate(tape, tier="quick"):
         sc["perms"] = [[tape.shuffle(list(range(n))), tape.shuffle(list(range(m)))] for _ in range(5)]
         sc["listing"], sc["link_order"] = list(range(n)), list(range(m))
         return sc
+    if tape.chance(1, 10):
+        # the real WeightedSum behind generator-like pull-based sources, read by one or two consumers: sources that
+        # serve any time in any order keep this inside the stated domain although the requests of consumers with
+        # different steps reach the merger in an order that depends on the listing
+        from .c20 import gen_wsum
+        sc = gen_wsum(tape, pure=True)
+        n, m = len(sc["components"]), len(sc["links"])
+        sc["fault"], sc["conv"] = None, False
+        sc["perms"] = [[tape.shuffle(list(range(n))), tape.shuffle(list(range(m)))] for _ in range(5)]
+        sc["listing"], sc["link_order"] = list(range(n)), list(range(m))
+        return sc
     sc = gen_e1(tape, tier, allow_delay_push=False, max_sim=4, pull_fanout=False, sorted_diamond=(2, 3))
     comps, links = sc["components"], sc["links"]
     if tape.chance(1, 4):
